@@ -363,8 +363,10 @@ func (ni *NodeInfo) IsTaskFitOnGpuGroup(resourceRequest *resource_info.ResourceR
 }
 
 func (ni *NodeInfo) EnoughIdleResourcesOnGpu(resources *resource_info.ResourceRequirements, gpuGroup string) bool {
-	if _, foundOnAllocated := ni.AllocatedSharedGPUsMemory[gpuGroup]; !foundOnAllocated {
-		// If a gpu group is not found in allocated, it's an indication that this group is pipelined
+	if allocatedMemory, foundOnAllocated := ni.AllocatedSharedGPUsMemory[gpuGroup]; !foundOnAllocated || allocatedMemory <= 0 {
+		// If a gpu group is not found in allocated, it's an indication that this group is pipelined. The same holds
+		// for a group whose allocated memory dropped back to zero (its only allocated sharer was turned into a
+		// pipelined one): no sharer holds a device for it.
 		return false
 	}
 	return ni.MemoryOfEveryGpuOnNode-ni.AllocatedSharedGPUsMemory[gpuGroup]-ni.GetResourceGpuMemory(resources) >= 0
